@@ -932,7 +932,7 @@ def RawSignatureHash(script, txTo, inIdx, hashtype):
     """
     HASH_ONE = b'\x01\x00\x00\x00\x00\x00\x00\x00\x00\x00\x00\x00\x00\x00\x00\x00\x00\x00\x00\x00\x00\x00\x00\x00\x00\x00\x00\x00\x00\x00\x00\x00'
 
-    if inIdx >= len(txTo.vin):
+    if inIdx < 0 or inIdx >= len(txTo.vin):
         return (HASH_ONE, "inIdx %d out of range (%d)" % (inIdx, len(txTo.vin)))
     txtmp = bitcoin.core.CMutableTransaction.from_tx(txTo)
 
